@@ -120,28 +120,16 @@ func decErrName(err error) string {
 	case errors.As(err, &pe):
 		return "pubkey"
 	case errors.As(err, &se):
-		return "sig"
+		return "untyped"
 	}
-	// codec.go errors are built from constant format strings
-	msg := err.Error()
-	switch {
-	case strings.Contains(msg, "invalid prefix"):
-		return "prefix"
-	case strings.Contains(msg, "invalid length"):
-		return "length"
-	case strings.Contains(msg, "checksum mismatch"):
-		return "checksum"
-	case strings.Contains(msg, "malformed signature"), strings.Contains(msg, "invalid signature"),
-		strings.Contains(msg, "signature R is"), strings.Contains(msg, "signature S is"):
-		// btcec/v2/ecdsa.ParseDERSignature: errors.New with constant texts
-		return "sig"
-	}
-	return "other"
+	// every other error (codec.go's fmt.Errorf, btcec's signature parser) has no
+	// sentinel or type: one class, never told apart by message text
+	return "untyped"
 }
 
 var decErrChars = map[string]byte{
 	"eof": 'f', "varint": 'v', "stream": 's', "badlen": 'l', "toolarge": 'L', "pubkey": 'k',
-	"sig": 'g', "prefix": 'x', "length": 'n', "checksum": 'c', "other": 'o',
+	"untyped": 'u',
 }
 
 // decOutcome is what one guarded call of a real decoder produced.
